@@ -747,5 +747,6 @@ func (c *Ctx) havocAllHeap(st *State) {
 	st.Heap = map[string]Term{}
 	c.genN++
 	st.Gen = c.genN
+	c.genAlloc[st.Gen] = st.Alloc
 	c.note("abstracted", "whole-heap havoc in "+c.unit)
 }
